@@ -154,6 +154,22 @@ def run(ck: Check):
             ck.disagree("thresholds above 2^24: a fresh layer does not report its initial thresholds / a second freeze moves a threshold",
                         {"init": init, "fresh": got, "frozen_once": f1, "frozen_twice": f2},
                         signature={"what": "large-threshold-roundtrip", "float_resolution": bool(res)})
+    # thresholds beyond the 32-bit integer range (raw counts of a 32-bit sensor), chosen exactly representable so that float resolution
+    # plays no part: freezing keeps them (rounding an integer-valued float is the identity), ordered, and the frozen code is x > t
+    for init in ([1e9, 3e9, 5e9], [2147483648.0, 4294967296.0, 8589934592.0], [1000.0, 2147483648.0 * 4, 2147483648.0 * 16]):
+        ck.case({"init": init, "kind": "beyond-int32"}, nontrivial=True, kind="freeze-large")
+        big = T(init)
+        fresh = big.get_thresholds().tolist()
+        big.freeze_thresholds()
+        fr = big.get_thresholds().tolist()
+        xs_ = torch.tensor([[[v - 1.0, v * 1.5]] for v in init]).reshape(1, 1, len(init), 2)
+        with torch.no_grad():
+            code = big(xs_.reshape(1, len(init), 2))
+        want = (xs_.reshape(1, 1, len(init), 2) > torch.tensor(fresh).view(1, -1, 1, 1)).float()
+        if fresh != init or fr != init or not all(a < b for a, b in zip(fr, fr[1:])) or not torch.equal(code, want):
+            ck.disagree("freezing thresholds beyond the 32-bit integer range moves them (frozen thresholds not round(trained), not ordered, "
+                        "or the frozen code is not x > threshold)", {"init": init, "fresh": fresh, "frozen": fr},
+                        signature={"what": "freeze-round", "range": "beyond-int32"})
     # ---- fresh layer = initial thresholds
     inits = [[1.0, 2.0, 3.0], [0.001, 0.002, 0.5], [0.25], [5.0, 30.0, 90.0, 200.0], [10.0, 20.5, 21.0, 21.25, 22.0],
              [64.0, 64.5, 65.0, 128.0, 128.25], [19.5, 40.0, 40.0625, 61.0], [0.5, 25.0, 25.5, 26.0]]
